@@ -26,7 +26,7 @@ ENC = ("indi.routing.router.Router.process_message", "indi.routing.router.Router
 BOUNDS = {
     "quick": "3 devices (A, B, catch-all; also two devices named A), 3 clients, names {A, B, none, unknown}, every client-originated "
              "kind; inductive step from every state of the universe + 2-step histories from the initial state",
-    "thorough": "as quick with 3-step histories",
+    "thorough": "as quick with 3-step histories for getProperties and newTextVector (reduced policy operations)",
 }
 OUTSIDE = "more than 3 devices/clients; registering the same endpoint twice; enableBLOB from a sender that is not a registered client"
 ASSUMPTIONS = ["the sender of a client message is a registered client (documented use of the router)",
